@@ -54,13 +54,18 @@ def point_inside(points: np.ndarray, vertices: np.ndarray, in_out: str) -> np.nd
     mat = vertices[:, 1:].swapaxes(0, 1) - vertices[:, 0]
     mat = np.transpose(mat.swapaxes(0, 1), (0, 2, 1))
 
-    tetra = np.linalg.inv(mat)
-    newp = np.matmul(tetra, np.reshape(points - vertices[:, 0, :], (*points.shape, 1)))
-    inside = (
-        np.all(newp >= 0, axis=1)
-        & np.all(newp <= 1, axis=1)
-        & (np.sum(newp, axis=1) <= 1)
-    ).flatten()
+    # a tetrahedron without volume (coplanar vertices) has no inside
+    regular = np.linalg.det(mat) != 0
+    inside = np.zeros(len(points), dtype=bool)
+    if np.any(regular):
+        tetra = np.linalg.inv(mat[regular])
+        pts = (points - vertices[:, 0, :])[regular]
+        newp = np.matmul(tetra, np.reshape(pts, (*pts.shape, 1)))
+        inside[regular] = (
+            np.all(newp >= 0, axis=1)
+            & np.all(newp <= 1, axis=1)
+            & (np.sum(newp, axis=1) <= 1)
+        ).flatten()
 
     return inside
 
